@@ -158,7 +158,16 @@ def r9(cx):
         cx.note("%s: notify %s" % (wn, "gated on `%s`" % flag if is_gated else "unconditional"))
     n = 0
     for cb in tasks:
-        stores = [c for c in cb.calls if c.bb in cb.live and c.primary.endswith("::store") and "running" in origin_of_operand(cb, c.args[0]).upvar_names and len(c.args) > 1 and const_value(c.args[1]) == 0]
+        # the task's own flag = the captured atomic it stores `true` into; its own Notify = the one it waits on (names are free)
+        FLAG = set()
+        for c in cb.calls:
+            if c.bb in cb.live and c.primary.endswith("::store") and len(c.args) > 1 and const_value(c.args[1]) == 1:
+                FLAG |= origin_of_operand(cb, c.args[0]).upvar_names
+        OWN = set()
+        for c in cb.calls:
+            if c.bb in cb.live and c.primary.endswith("Notify::notified") and c.args:
+                OWN |= origin_of_operand(cb, c.args[0], through_calls="all").upvar_names
+        stores = [c for c in cb.calls if c.bb in cb.live and c.primary.endswith("::store") and FLAG & origin_of_operand(cb, c.args[0]).upvar_names and len(c.args) > 1 and const_value(c.args[1]) == 0]
         # ... or the flag is cleared by dropping a guard whose destructor stores `false` (explicit `drop(guard)` on the normal path)
         stores += [c for c in cb.calls if c.bb in cb.live and c.primary in ("std::mem::drop", "core::mem::drop") and c.args and c.args[0][0] in ("c", "m")
                    and _clears_flag_on_drop(f, cb.local_ty(c.args[0][1][0]))]
@@ -179,14 +188,16 @@ def r9(cx):
                 # the level task has no `pending` predicate: a lost wake-up only delays a compaction until the next flush
                 cx.ok("task %s: gated wake-up without a pending-work predicate (delay only, next flush re-notifies)" % cb.id, st.where())
                 continue
-            rechecks = {c.bb for c in cb.calls if c.bb in cb.live and (c.names & work or c.primary.endswith("Notify::notify_one") and "notify" in origin_of_operand(cb, c.args[0]).upvar_names)}
+            rechecks = {c.bb for c in cb.calls if c.bb in cb.live and (c.names & work or c.primary.endswith("Notify::notify_one") and OWN & origin_of_operand(cb, c.args[0], through_calls="all").upvar_names)}
+            # (only a re-check that lies between the clearing of the flag and the next wait counts)
+            rechecks = rechecks & cb.reachable_after([st.bb], avoid={w.bb for w in waits})
             r = cb.reachable_after([st.bb], avoid=rechecks)
             bad = [w for w in waits if w.bb in r]
             if bad:
                 # a pass that FAILED may go back to waiting without the re-check (see below); decide the question for the
                 # passes that did not fail: walk one iteration from where the flag is set, never entering an error arm,
                 # with the constant facts established on the way (`failed = false`)
-                sets = [c for c in cb.calls if c.bb in cb.live and c.primary.endswith("::store") and "running" in origin_of_operand(cb, c.args[0]).upvar_names
+                sets = [c for c in cb.calls if c.bb in cb.live and c.primary.endswith("::store") and FLAG & origin_of_operand(cb, c.args[0]).upvar_names
                         and len(c.args) > 1 and const_value(c.args[1]) == 1]
                 errs = set()
                 for w_ in cb.calls_to("CompactionOperations::compact_memtable"):
@@ -204,7 +215,7 @@ def r9(cx):
                 if not re_:
                     continue
                 okb, errb = re_
-                selfn = [c for c in cb.calls if c.bb in cb.live and c.primary.endswith("Notify::notify_one") and "notify" in origin_of_operand(cb, c.args[0]).upvar_names]
+                selfn = [c for c in cb.calls if c.bb in cb.live and c.primary.endswith("Notify::notify_one") and OWN & origin_of_operand(cb, c.args[0], through_calls="all").upvar_names]
                 r_err = feasible_reach(cb, errb, avoid={w.bb for w in waits})
                 spin = [c for c in selfn if c.bb in r_err]
                 cx.check(not spin, "task %s does not re-arm itself on the path of a failed flush" % cb.id, "failed-flush-retried-at-once|%s" % flag, w_.where(),
@@ -392,6 +403,16 @@ def r5(cx):
                     ok = False
             cx.check(ok, what, "stall-order|%s" % what, t.where() if hasattr(t, "where") else None,
                      "in the stall loop: NOT (%s) -- a wake-up or shutdown issued in between is lost and the writer sleeps forever" % what)
+    # the signalling side is unconditional: a waiter registers with `notified()` BEFORE it reads the counts, so it is safe
+    # only if every completed flush / compaction and the shutdown reach `notify_waiters` -- a fast path that consults a
+    # shared flag (`is_stalled` is one bool for all waiters, written after the counts were read) drops wake-ups
+    for fn in ("WriteStallController::signal_work_done", "WriteStallController::signal_shutdown"):
+        sb = f.body(fn)
+        nw = [c for c in sb.calls if c.bb in sb.live and c.primary.endswith("Notify::notify_waiters")]
+        okp = bool(nw) and all(sb.set_dominates([c.bb for c in nw], r_) for r_ in sb.rets)
+        cx.check(okp, "`%s` notifies the waiters on every path" % fn, "signal-conditional|%s" % fn.split("::")[-1], sb.where(),
+                 "`%s` can return without `notify_waiters`: a writer that parked again (or registered between its count read and its flag store) is never woken although the "
+                 "flush it waits for completed -- commit() hangs" % fn)
     # stall predicate: returns without waiting iff both counts are below their limits
     pred = []
     for cmp_ in comparisons(b):
